@@ -427,7 +427,7 @@ def _mjw_run(mjm, state, case):
   if case["prefill"] and mjm.nsensordata:
     d.sensordata.fill_(_PREFILL)
   mjw.forward(m, d)
-  if (H.overflow(d) & _CAP).any():
+  if (H.overflow_fwd(d) & _CAP).any():
     return None
   out = {k: getattr(d, k).numpy()[0].copy() for k in _FWD}
   for k in ("ne", "nf", "nl", "nefc", "solver_niter"):
@@ -445,7 +445,7 @@ def _mjw_run(mjm, state, case):
     except NotImplementedError:
       out["inv_rejected"] = True
   mjw.step(m, d)
-  if (H.overflow(d) & _CAP).any():
+  if (H.overflow_fwd(d) & _CAP).any():
     return None
   out["next"] = dict(qpos=d.qpos.numpy()[0].copy(), qvel=d.qvel.numpy()[0].copy(), act=d.act.numpy()[0].copy(), time=float(d.time.numpy()[0]))
   return out
